@@ -8,6 +8,7 @@ import logging
 from random import randrange
 from typing import Any, List, NamedTuple, Optional, Tuple
 
+from pyatv import exceptions
 from pyatv.auth.hap_channel import AbstractHAPChannel
 from pyatv.protocols.airplay.utils import decode_plist_body, encode_plist_body
 from pyatv.protocols.mrp import protobuf
@@ -168,6 +169,12 @@ class BaseDataStreamChannel(AbstractHAPChannel, ABC):
         if len(data) < DataHeader.length:
             return None, b"", data
         header = DataHeader.decode(data, allow_excessive=True)
+        if header.size < DataHeader.length:
+            # Size includes the header itself, so a smaller value is never valid. If
+            # accepted, no (size=0) or misaligned progress is made through the buffer.
+            raise exceptions.ProtocolError(
+                f"invalid size in data stream header: {header.size}"
+            )
         if len(data) < header.size:
             _LOGGER.debug(
                 "Not enough data on data channel (has %d, expects %d)",
